@@ -253,7 +253,6 @@ Definition attr_val (c : cls) (k : Z) (v : value) : value :=
 (* attributes every instance of the class gets, whatever the arguments *)
 Definition const_attrs (c : cls) : list (Z * value) :=
   match c with
-  | CPermutation | CTransposePermutation => [(k_dtype, VDtype F32)]                  (* self._dtype = torch.float32 *)
   | CKronDiag => [(k_upper, VBool false)]
   | _ => []
   end.
@@ -326,9 +325,8 @@ Fixpoint dtype_of (a : arg) : option dt :=
           | Some (VDtype d) => Some d
           | _ => match lookup k_dtype nd with Some (VDtype d) => Some d | _ => None end
           end
-      | CPermutation | CTransposePermutation =>
-          match lookup k_dtype at_ with Some (VDtype d) => Some d | _ => None end      (* self._dtype *)
-      | CIdentity => match lookup k_dtype nd with Some (VDtype d) => Some d | _ => None end
+      | CIdentity | CPermutation | CTransposePermutation =>                             (* self._dtype = the dtype keyword *)
+          match lookup k_dtype nd with Some (VDtype d) => Some d | _ => None end
       | _ => if length dn <? length ch
              then match ch with x :: _ => dtype_of x | [] => None end                   (* self._args[0].dtype *)
              else None
@@ -421,11 +419,17 @@ Definition keep_or (k : Z) (v : value) (nd : list (Z * value)) : option value :=
   match v with VNone => lookup k nd | _ => Some v end.
 (* ZeroLinearOperator.to / .type:  self.__class__( *self.sizes, dtype=..., device=... )  (self.sizes = list(sizes) = _args) *)
 Definition zero_kw (vdt vdev : value) : list (Z * arg) := [(k_dtype, AOther vdt); (k_device, AOther vdev)].
-(* PermutationLinearOperator.to:  res = self.__class__(self.perm.to(device=device), self.inv_perm.to(device=device),
-   validate_args=self._kwargs["validate_args"]);  if dtype is not None: res._dtype = dtype   -  the index tensors are
-   never cast (Tensor.to(device=<same device>) returns the tensor itself) *)
-Definition perm_attrs (d : option dt) (at_ : list (Z * value)) : list (Z * value) :=
-  match d with Some x => set_key k_dtype (VDtype x) at_ | None => at_ end.
+(* the to() / type() of the two permutation classes rebuild with the dtype keyword (the nominal dtype of an operator
+   without floating data):
+     Permutation.to            self.__class__(self.perm.to(device=device), self.inv_perm.to(device=device),
+                                              validate_args=self._kwargs["validate_args"],
+                                              dtype=self._dtype if dtype is None else dtype)
+                               - the index tensors are never cast; Tensor.to(device=<same device>) is the tensor itself;
+                                 the two keywords passed explicitly are all the keywords of the class
+     Permutation.type          self.__class__(self.perm.clone(), self.inv_perm.clone(), validate_args=..., dtype=dtype)
+     TransposePermutation.to   self.__class__(self.m, dtype=self._dtype if dtype is None else dtype)
+     TransposePermutation.type self.__class__(self.m, dtype=dtype)                                  (m is a keyword) *)
+Definition is_perm_cls (c : cls) : bool := cls_eqb c CPermutation || cls_eqb c CTransposePermutation.
 
 Fixpoint meth_call (fuel : nat) (m : meth) (o : arg) (n : nat) {struct fuel} : option (arg * nat) :=
   match fuel with
@@ -472,16 +476,10 @@ Fixpoint meth_call (fuel : nat) (m : meth) (o : arg) (n : nat) {struct fuel} : o
                   match ctor c (firstn k ch) (zero_kw vdt vdev) with Some r => Some (r, n) | None => None end
               | _, _ => None
               end
-            else if cls_eqb c CPermutation then
-              match ch, lookup k_validate_args nd with
-              | [ATensor _; ATensor _], Some _ =>
-                  (* perm.to(device=device), inv_perm.to(device=device): the same tensors; the keyword passed explicitly,
-                     validate_args=self._kwargs["validate_args"], is the class's only keyword, i.e. **self._kwargs *)
-                  match again ch nd n with
-                  | Some (AOp c' ch' dn' nd' at', n') => Some (AOp c' ch' dn' nd' (perm_attrs d at'), n')
-                  | _ => None
-                  end
-              | _, _ => None
+            else if is_perm_cls c then
+              match keep_or k_dtype (dt_val d) nd with
+              | Some vdt => again ch (set_key k_dtype vdt nd) n
+              | None => None
               end
             else generic
         | MType d =>
@@ -494,7 +492,12 @@ Fixpoint meth_call (fuel : nat) (m : meth) (o : arg) (n : nat) {struct fuel} : o
               | _, _, _ => None
               end
             else if cls_eqb c CTransposePermutation then
-              Some (AOp c ch dn nd (set_key k_dtype (VDtype d) at_), n)     (* self._dtype = dtype; return self *)
+              again ch (set_key k_dtype (VDtype d) nd) n
+            else if cls_eqb c CPermutation then
+              match map_st (on_arg (meth_call f) MClone) ch n with          (* perm.clone(), inv_perm.clone() *)
+              | Some (ch', n') => again ch' (set_key k_dtype (VDtype d) nd) n'
+              | None => None
+              end
             else if cls_eqb c CZero then
               match lookup k_device nd with                                  (* dtype=dtype, device=self._device *)
               | Some vdev => match ctor c (firstn k ch) (zero_kw (VDtype d) vdev) with Some r => Some (r, n) | None => None end
